@@ -126,8 +126,9 @@ def props_of(rep, rec=None):
 
 
 METRIC_PROPS = {
-    "metrics.answer": {"C14"}, "metrics.status": {"C14"}, "metrics.notFound": {"C14"}, "metrics.wellformed": {"C14"},
-    "metrics.contentLength": {"C14"}, "metrics.isSynced": {"C14"}, "metrics.apiAccess": {"C14"},
+    # C14 says that the endpoint answers regardless of the gate: a trap or a status other than 200 for /metrics;
+    # headers, other paths and the text format are compared but no listed property speaks about them
+    "metrics.answer": {"C14"}, "metrics.status": {"C14"}, "metrics.isSynced": {"C14"}, "metrics.apiAccess": {"C14"},
     "metrics.mainChainHeight": {"C02"}, "metrics.stableHeight": {"C03"},
     "metrics.rejects": {"C10", "C13"}, "metrics.deserializeErrors": {"C10"}, "metrics.insertErrors": {"C10"},
     "metrics.requests": {"C13"}, "metrics.responses": {"C13"},
